@@ -759,7 +759,6 @@ func (handleAdapter) DialLeader() (*grpc.ClientConn, error) {
 	return nil, errors.New("simulated leader does not dial itself")
 }
 
-
 // ---- concurrent operations under a decided schedule
 
 type parTask struct {
